@@ -88,7 +88,7 @@ func runC02(x *Ctx) {
 
 func runC03(x *Ctx) {
 	x.C.Rule("C03.R1", "Match receives the policies of every delegation of the chain", 2)
-	x.C.Rule("C03.R2", "Match is applied to ToIPLD(arguments); arguments = recv.arguments / the hook's checked result", 4)
+	x.C.Rule("C03.R2", "Match is applied to ToIPLD(arguments); arguments = recv.arguments / the hook's checked result", 3)
 	x.C.Rule("C03.R3", "verifyArgs succeeds only if Match returned true", 1)
 	x.C.Rule("C03.R4", "Policy.Match is a conjunction over all statements with the four-valued table", 7)
 
@@ -96,24 +96,60 @@ func runC03(x *Ctx) {
 	if va != nil {
 		verifyArgsRules(x, va)
 	}
-	// call sites of executionAllowed / verifyArgs
+	// what the entry points hand to verifyArgs, seen through the internal executionAllowed (spliced into the entry
+	// points' paths, so that its own signature - an arguments parameter today, a function producing them, a
+	// struct - does not matter)
 	ea := x.fn("C03.R2", invTok+"executionAllowed")
-	if ea != nil {
-		sel, _, _ := x.E.Select(ea, paths.WantSuccess)
-		ok := len(sel) > 0
+	for _, ent := range []struct {
+		name string
+		hook bool
+	}{{"ExecutionAllowed", false}, {"ExecutionAllowedWithArgsHook", true}} {
+		f := x.fn("C03.R2", invTok+ent.name)
+		if f == nil || ea == nil {
+			continue
+		}
+		ps, err := paths.EnumerateSplicing(f, map[*ssa.Function]bool{ea: true})
+		if err != nil {
+			x.C.Unresolved("C03.R2", "paths:"+load.ShortName(f), x.pos(f), err.Error())
+			continue
+		}
+		sel, unk, _ := x.E.SelectFrom(ps, f, paths.WantSuccess)
+		ok := len(sel) > 0 && len(unk) == 0
 		detail := ""
 		for _, v := range sel {
 			found := false
-			for _, f := range v.AllFacts() {
-				if xx := paths.NilCheckOf(f.Atom); xx != nil && f.Pol {
-					if ct, _ := paths.CallOf(xx); ct != nil && ct.Name == invTok+"verifyArgs" {
-						found = true
-						if len(ct.Args) != 3 || ct.Args[2].String() != "arg1" || ct.Args[0].String() != "recv" ||
-							ct.Args[1].String() != "call["+invTok+"loadProofs](recv,arg0)#0" {
-							ok = false
-							detail += "verifyArgs is called as " + ct.String() + "\n"
-						}
+			for _, fc := range v.AllFacts() {
+				xx := paths.NilCheckOf(fc.Atom)
+				if xx == nil || !fc.Pol {
+					continue
+				}
+				ct, _ := paths.CallOf(xx)
+				if ct == nil || ct.Name != invTok+"verifyArgs" {
+					continue
+				}
+				found = true
+				if len(ct.Args) != 3 || ct.Args[0].String() != "recv" || ct.Args[1].String() != "call["+invTok+"loadProofs](recv,arg0)#0" {
+					ok = false
+					detail += "verifyArgs is called as " + ct.String() + "\n"
+					continue
+				}
+				a := ct.Args[2]
+				if !ent.hook {
+					if a.String() != "recv.arguments" {
+						ok = false
+						detail += "the arguments checked are " + a.String() + ", not the token's own (recv.arguments)\n"
 					}
+					continue
+				}
+				// result #0 of the hook call (dyncall of parameter arg1), error (#1) checked nil on the path
+				if a.Op != "extract" || a.Name != "#0" || a.Args[0].Op != "dyncall" || a.Args[0].Args[0].String() != "arg1" {
+					ok = false
+					detail += "the arguments checked are " + a.String() + ", not the hook's result\n"
+					continue
+				}
+				if !v.HasFact(eqs(a.Args[0].String()+"#1", "const(nil)"), true) {
+					ok = false
+					detail += "the hook's error is not checked before using its result\n"
 				}
 			}
 			if !found {
@@ -121,53 +157,11 @@ func runC03(x *Ctx) {
 				detail += "a success path does not check verifyArgs\n"
 			}
 		}
-		x.C.Obl("C03.R2", "args-passed:"+load.ShortName(ea), x.pos(ea), "executionAllowed hands its own arguments parameter and the loaded delegations to verifyArgs", ok, detail)
-	}
-	if f := x.fn("C03.R2", invTok+"ExecutionAllowed"); f != nil {
-		sel, _, _ := x.E.Select(f, paths.WantSuccess)
-		ok := len(sel) > 0
-		detail := ""
-		for _, v := range sel {
-			r := v.Results()[0]
-			if r.String() != "call["+invTok+"executionAllowed](recv,arg0,recv.arguments)" {
-				ok = false
-				detail += "returns " + r.String() + "\n"
-			}
+		desc := "ExecutionAllowed checks the token's own arguments (recv.arguments) against the loaded delegations"
+		if ent.hook {
+			desc = "the hook variant checks the arguments returned by the hook (error checked), not recv.arguments, against the loaded delegations"
 		}
-		x.C.Obl("C03.R2", "args-source:"+load.ShortName(f), x.pos(f), "ExecutionAllowed checks the token's own arguments (recv.arguments)", ok, detail)
-	}
-	if f := x.fn("C03.R2", invTok+"ExecutionAllowedWithArgsHook"); f != nil {
-		sel, _, _ := x.E.Select(f, paths.WantSuccess)
-		ok := len(sel) > 0
-		detail := ""
-		for _, v := range sel {
-			r := v.Results()[0]
-			ct, _ := paths.CallOf(r)
-			if ct == nil || ct.Name != invTok+"executionAllowed" || len(ct.Args) != 3 {
-				ok = false
-				detail += "returns " + r.String() + "\n"
-				continue
-			}
-			a := ct.Args[2]
-			// must be result #0 of the hook call (dyncall of parameter arg1), error (#1) checked nil on the path
-			if a.Op != "extract" || a.Name != "#0" || a.Args[0].Op != "dyncall" || a.Args[0].Args[0].String() != "arg1" {
-				ok = false
-				detail += "arguments handed to executionAllowed are " + a.String() + ", not the hook's result\n"
-				continue
-			}
-			errT := a.Args[0].String() + "#1"
-			checked := false
-			for _, ff := range v.Facts {
-				if xx := paths.NilCheckOf(ff.Atom); xx != nil && xx.String() == errT && ff.Pol {
-					checked = true
-				}
-			}
-			if !checked {
-				ok = false
-				detail += "the hook's error is not checked before using its result\n"
-			}
-		}
-		x.C.Obl("C03.R2", "args-source:"+load.ShortName(f), x.pos(f), "the hook variant checks the arguments returned by the hook (error checked), not recv.arguments", ok, detail)
+		x.C.Obl("C03.R2", "args-source:"+load.ShortName(f), x.pos(f), desc, ok, dedupLines(detail))
 	}
 	policyMatchTable(x, "C03.R4", "(pkg/policy.Policy).Match", map[string]string{"True": "continue", "OptionalNoData": "continue", "False": "false", "NoData": "false"})
 }
